@@ -172,7 +172,7 @@ impl Violation {
 }
 
 /// Evidence accumulator (one per worker; merged at the end).
-#[derive(Default, Clone)]
+#[derive(Default, Clone, Serialize, Deserialize)]
 pub struct Evidence {
     pub evaluations: u64,
     pub nontrivial: HashSet<u64>,
